@@ -89,6 +89,14 @@ def handleSpecTree (ws : List String) : Option String :=
       let s := specRun c sc toks
       some (if m == s then "same" else "diff " ++ m ++ " || " ++ s)
     | none => some "bad-request"
+  | "treecmpv" :: rest =>
+    -- `treecmp` that also returns the model's result when both agree (to tie the REAL tree to it)
+    match run specTreeReq rest with
+    | some (c, sc, toks) =>
+      let m := modelRun c sc toks
+      let s := specRun c sc toks
+      some (if m == s then "same " ++ m else "diff " ++ m ++ " || " ++ s)
+    | none => some "bad-request"
   | "treecmp-dev" :: flags :: rest =>
     -- `treecmp` with NON-STANDARD switches of the specification turned on (classification only)
     match devOfWord flags, run specTreeReq rest with
